@@ -255,7 +255,13 @@ func (c *ctx) stmt(s ast.Stmt) (pre []ast.Stmt, repl ast.Stmt, post []ast.Stmt) 
 	case *ast.SelectStmt:
 		c.children(s)
 		pre = append(pre, c.yield(x, "select"))
-		post = append(post, c.yield(x, "selected"))
+		// the goroutine parks again at the top of whichever clause was chosen (a
+		// yield after the select would make a terminating select non-terminating)
+		for _, cl := range x.Body.List {
+			if cc, ok := cl.(*ast.CommClause); ok {
+				cc.Body = append([]ast.Stmt{c.yield(cc, "selected")}, cc.Body...)
+			}
+		}
 		return
 	case *ast.RangeStmt:
 		c.children(s)
